@@ -1983,8 +1983,7 @@ Lemma wake_client_log now s b u :
 Proof.
   unfold wake_client.
   destruct (on_key _ (u_key u) (e_pop (u_left u))) as [r d'].
-  destruct r; try (destruct (zlookup (u_conn u) (b_blk b)) as [st|]; [destruct (recheck _ _ _) as [[[k v]|] d'']|]; cbn [fst];
-    first [left; reflexivity | right; exists (bl_left st), k; unfold log_pop; rewrite s_aof_log_aof_in; reflexivity]).
+  destruct r; try (destruct (zlookup (u_conn u) (b_blk b)) as [st|]; cbn [fst]; left; reflexivity).
   destruct (zlookup (u_conn u) (b_blk b)); cbn [fst]; [|left; reflexivity].
   right. exists (u_left u), (u_key u). unfold log_pop. rewrite s_aof_log_aof_in. reflexivity.
 Qed.
